@@ -29,7 +29,7 @@ func c09Deviations() [][]TNode {
 		{Path: "ww/inner", Kind: "file", Body: "w"},
 		{Path: "ww", Kind: "dir", Mode: 0777},
 		{Path: ".hidden/.x", Kind: "file", Body: "h"},
-		{Path: "lnk2", Kind: "link", Target: "./marker-root"},         // link texts that are not in Clean form
+		{Path: "lnk2", Kind: "link", Target: "./marker-root"},        // link texts that are not in Clean form
 		{Path: "m/up2", Kind: "link", Target: "../m/../marker-root"}, // must survive the archive verbatim
 		{Path: ".terraform/providers/p", Kind: "file", Body: "p"},    // excluded by the default rules: the file goes, the directories stay
 		{Path: ".terraform/modules/mm/x", Kind: "file", Body: "x"},
